@@ -663,6 +663,47 @@ Section Stored.
     - apply array_elements_stored in Ea. destruct Ea as (vals & -> & HF). eauto.
   Qed.
 
+  (* ---------------------------------------------------------------- maps: every entry, keys as written *)
+  Lemma map_set_fresh key v acc : map_get key acc = None -> map_set key v acc = acc ++ [(key, v)].
+  Proof.
+    induction acc as [|[k w] r IH]; cbn; [reflexivity|].
+    destruct (bytes_eqb k key); [discriminate|]. intros H. rewrite IH by exact H. reflexivity.
+  Qed.
+
+  Theorem map_entries_stored k : forall f d ms acc l,
+    tr_map orc e f d (FScalar k) ms acc = Ok l ->
+    exists vals, l = acc ++ vals /\
+      Forall2 (fun kv kx => fst kx = fst kv /\ is_container (snd kv) = false /\
+                            scalar_from_go orc k (goval_of_json (snd kv)) = Ok (Some (snd kx))) ms vals.
+  Proof.
+    induction f as [|f IH]; intros d ms acc l H; [discriminate|].
+    rewrite tr_map_S in H. destruct ms as [|[key v] r].
+    - inversion H; subst. exists []. split; [rewrite app_nil_r; reflexivity|constructor].
+    - destruct (map_get key acc) eqn:Eg; [discriminate|].
+      destruct (is_container v) eqn:Ec; [discriminate|].
+      destruct (scalar_from_go orc k (goval_of_json v)) as [[x|]| | |] eqn:Es; try discriminate.
+      cbn [obind map_set_value] in H. rewrite (map_set_fresh key x acc Eg) in H.
+      apply IH in H. destruct H as (vals & -> & HF).
+      exists ((key, x) :: vals). split; [rewrite <- app_assoc; reflexivity|].
+      constructor; [cbn; repeat split; assumption|exact HF].
+  Qed.
+
+  (* arrays of objects: one sub-message per element, each the decode of that element, in order *)
+  Theorem array_objects_stored ref props : lookup e ref = Some (SObject props) ->
+    forall f d js acc l, tr_array orc e f d (FObject ref) js acc = Ok l ->
+    exists subs, l = acc ++ map VMsg subs /\
+      Forall2 (fun j sub => exists ms f', j = JObj ms /\ tr_object orc e f' d props ms [] [] = Ok sub) js subs.
+  Proof.
+    intros Hl. induction f as [|f IH]; intros d js acc l H; [discriminate|].
+    rewrite tr_array_S in H. destruct js as [|v r].
+    - inversion H; subst. exists []. split; [rewrite app_nil_r; reflexivity|constructor].
+    - rewrite Hl in H. destruct v as [| | | | |ms]; try discriminate.
+      destruct (tr_object orc e f d props ms [] []) as [sub| | |] eqn:Eo; try discriminate.
+      cbn [obind] in H. apply IH in H. destruct H as (subs & -> & HF).
+      exists (sub :: subs). split; [rewrite <- app_assoc; reflexivity|].
+      constructor; [eauto|exact HF].
+  Qed.
+
   (* ---------------------------------------------------------------- nested objects: the sub-message is the decode of the sub-object *)
   Lemma object_member_own f d p ref v m m1 :
     p_ty p = FObject ref -> p_path p <> [] -> tr_present orc e f d p v m = Ok m1 ->
